@@ -691,7 +691,7 @@ PROPS["C08"]["runners"] = PROPS["C08"]["runners"] + [stress_runner("future", "an
 # the recorded list is the replay. Props/C07 and Props/C15 prove what acceptance implies (final_sample_exclusive, early_*_impossible, seen_*_imp).
 _TRACE_DIFF = {"slice": "trace", "recorded": True, "n_quick": 160, "n_thorough": 1600, "seeds_thorough": 3, "n_search": 800, "par": 8}
 for _p in ["C07", "C15"]:
-    PROPS[_p]["diff"] = PROPS[_p]["diff"] + [_TRACE_DIFF]
+    PROPS[_p]["diff"] = PROPS[_p]["diff"] + [dict(_TRACE_DIFF, slice={"C07": "tracetimeout", "C15": "tracefuture"}[_p])]
     PROPS[_p]["rule"] += ("; trace slice: per case 4 real Timeout applications (alone / under a fallback / async; function durations far below, within "
         "+-200 us and within +-90 us of the 2 ms limit, far above, or blocking until cancelled) and 4 real asynchronous executions (1-4 concurrent readers "
         "polling IsDone / Done and calling Get, a Cancel at a drawn instant in a third of them); every event user code sees is stamped with one atomic "
@@ -711,7 +711,7 @@ PROPS["C18"]["runners"] = PROPS["C18"].get("runners", []) + [stress_runner("adap
 
 # the hedge coordinator's TRACE tie (Conc/TraceHedge.lean): per case 3 real hedged executions (maxHedges 0-3, no conditions / CancelIf, per-attempt
 # durations around the 400 us hedge delay) are replayed through Conc.Hedge with the exact acceptor
-PROPS["C09"]["diff"] = PROPS["C09"]["diff"] + [_TRACE_DIFF]
+PROPS["C09"]["diff"] = PROPS["C09"]["diff"] + [dict(_TRACE_DIFF, slice="tracehedge")]
 PROPS["C09"]["rule"] += "; trace slice: real hedged executions (maxHedges 0-3, default and CancelIf conditions, attempt durations 0-2 ms around the 400 us hedge delay): OnHedge, every attempt's entry and return (with whether its value matches the cancel conditions), the returned value's attempt and every entered attempt's IsCanceled() after the return, stamped with one atomic counter, must be shown by some interleaving of the Lean model"
 PROPS["C09"]["manifest"]["text"] += " TRACE: recorded event lists of real hedged executions are decided by an acceptor proved exact for the interleaving model; what acceptance implies is proved in the property file."
 PROPS["C09"]["manifest"]["technique"] += " + trace acceptance against the interleaving model (acceptor proved sound and complete)"
